@@ -223,13 +223,16 @@ type X struct {
 
 func New(conf world.Conf) *X {
 	x := &X{Conf: conf, App: "live", Stream: "s", TsStep: 40, FrameSize: 24}
-	if on, _ := conf["record.enable_flv"].(bool); on {
+	onF, _ := conf["record.enable_flv"].(bool)
+	onT, _ := conf["record.enable_mpegts"].(bool)
+	if onF || onT {
 		d, err := os.MkdirTemp(world.Scratch(), "rec")
 		if err != nil {
 			panic(err)
 		}
 		x.recDir = d
 		conf["record.flv_out_path"] = d + "/"
+		conf["record.mpegts_out_path"] = d + "/"
 	}
 	x.W = world.New(conf)
 	return x
@@ -425,6 +428,20 @@ func (x *X) RecordFlv() (files []string, recs [][]Recv, errs []string) {
 			rs = append(rs, r)
 		}
 		recs = append(recs, rs)
+	}
+	return
+}
+
+// RecordTs returns the raw bytes of every TS record file, in file-name order.
+func (x *X) RecordTs() (files []string, data [][]byte) {
+	if x.recDir == "" {
+		return
+	}
+	ents, _ := filepath.Glob(filepath.Join(x.recDir, "*.ts"))
+	for _, f := range ents {
+		b, _ := os.ReadFile(f)
+		files = append(files, filepath.Base(f))
+		data = append(data, b)
 	}
 	return
 }
